@@ -57,6 +57,11 @@ def make_inputs(rng: Any, nside: int, ndet: int, ndir: int, nt: int, how: str) -
         psi = rng.uniform(-np.pi, np.pi, nt)
         if how == 'poles':
             theta[: min(nt, 2)] = [0.0, np.pi][: min(nt, 2)]
+        if how == 'polar-crossing':
+            # a great-circle scan across the pole: the co-latitude runs through zero to negative values (a sampling is a
+            # rotation Rz(phi) Ry(theta) Rz(psi), defined for every theta)
+            theta = np.linspace(0.5, -0.5, nt) + rng.uniform(-0.05, 0.05)
+            phi = np.full(nt, rng.uniform(0, 2 * np.pi))
         samp = Sampling(jnp.asarray(theta), jnp.asarray(phi), jnp.asarray(psi))
     # detector directions around the boresight (z axis)
     x = rng.uniform(-0.3, 0.3, size=(ndet, ndir))
@@ -129,7 +134,7 @@ def case(rng: Any, ctx: Ctx, index: int) -> None:
         nt = ndet                                           # as many samples as detectors
     if index % 5 == 2:
         case_border(rng, ctx, index)
-    how = gen.pick(rng, ['uniform', 'wrap', 'poles', 'random-sampling'])
+    how = gen.pick(rng, ['uniform', 'wrap', 'poles', 'polar-crossing', 'random-sampling'])
     land = HealpixLandscape(nside, kind, np.float64)
     samp, det, theta, phi, psi, dirs = make_inputs(rng, nside, ndet, ndir, nt, how)
     pix, amb = pointing_pixels(nside, theta, phi, psi, dirs)
